@@ -825,8 +825,196 @@ Lemma stale_history_fixed :
   fst (frun true f0 (stale_loop 601 202)) = [RUnit; RSent SNone; RTimer (Some 601)].
 Proof. vm_compute. repeat split; reflexivity. Qed.
 
+Lemma len_upd g : forall l i, length (upd i g l) = length l.
+Proof. induction l; intros i; destruct i; cbn; auto. Qed.
+
+Lemma whs_writes i h f a : (i < length (f_sp f))%nat -> ts_ack_at (sp_at f i) = Some a -> ts_disc (sp_at f i) = false ->
+  hs_writes h -> ts_ack_at (sp_at (snd (whs i h f)) i) = None.
+Proof.
+  intros Hl Ha Hd (Hk & Hs & Hr). unfold whs. rewrite Hd, Hk. cbn [negb orb].
+  assert (E : (hw_stop h =? 1) = false) by (apply Z.eqb_neq; exact Hs). rewrite E, Ha, Hr. cbn [snd].
+  unfold sp_at, upd_sp. cbn [f_sp set_sp]. rewrite nth_upd_same by exact Hl. reflexivity.
+Qed.
+
+Lemma len_whs i h f : length (f_sp (snd (whs i h f))) = length (f_sp f).
+Proof.
+  unfold whs. destruct (ts_disc (sp_at f i) || negb (hw_keys h)); [reflexivity|].
+  destruct (hw_stop h =? 1); [reflexivity|]. destruct (ts_ack_at (sp_at f i)); [destruct (hw_room h)|]; try reflexivity.
+  cbn [snd]. unfold upd_sp. cbn [f_sp set_sp]. apply len_upd.
+Qed.
+
+Lemma complete_whs i h f : f_complete (snd (whs i h f)) = f_complete f.
+Proof.
+  unfold whs. destruct (ts_disc (sp_at f i) || negb (hw_keys h)); [reflexivity|].
+  destruct (hw_stop h =? 1); [reflexivity|]. destruct (ts_ack_at (sp_at f i)); [destruct (hw_room h)|]; reflexivity.
+Qed.
+
+Lemma wapp_other now its : forall f i, i <> 2%nat -> sp_at (wapp now its f) i = sp_at f i.
+Proof.
+  induction its as [|it rest IH]; intros f i Hi; [reflexivity|]. cbn [wapp]. cbv zeta.
+  set (consult := match ts_ack_at (sp_at f 2) with None => true | Some a => a >? now end).
+  set (due := match ts_ack_at (sp_at f 2) with Some a => a <=? now | None => false end).
+  assert (Hu : forall g, sp_at (upd_sp 2 ts_ack_written g) i = sp_at g i).
+  { intros g. unfold sp_at, upd_sp. cbn [f_sp set_sp]. now apply nth_upd_other. }
+  destruct consult; cbn [andb].
+  - destruct (is_some (ai_pacer it)); [reflexivity|]. destruct (ai_stop it); [reflexivity|].
+    destruct (f_complete f && due && negb (ai_room it)); [reflexivity|].
+    destruct (f_complete f && due); (destruct (ai_empty it); [|rewrite IH by exact Hi]); try rewrite Hu; reflexivity.
+  - destruct (ai_stop it); [reflexivity|].
+    destruct (f_complete f && due && negb (ai_room it)); [reflexivity|].
+    destruct (f_complete f && due); (destruct (ai_empty it); [|rewrite IH by exact Hi]); try rewrite Hu; reflexivity.
+Qed.
+
+Lemma wapp_keeps_none now its : forall f, ts_ack_at (sp_at f 2) = None -> ts_ack_at (sp_at (wapp now its f) 2) = None.
+Proof.
+  induction its as [|it rest IH]; intros f H; [exact H|]. cbn [wapp]. cbv zeta. rewrite H. cbn [andb]. rewrite !andb_false_r. cbn [andb].
+  destruct (is_some (ai_pacer it)); [exact H|]. destruct (ai_stop it); [exact H|]. destruct (ai_empty it); [exact H|].
+  apply IH. exact H.
+Qed.
+
+Lemma wapp_writes now it rest f a : (2 < length (f_sp f))%nat -> ts_ack_at (sp_at f 2) = Some a -> a <= now ->
+  f_complete f = true -> ai_stop it = false -> ai_room it = true ->
+  ts_ack_at (sp_at (wapp now (it :: rest) f) 2) = None.
+Proof.
+  intros Hl Ha Hle Hc Hs Hr. cbn [wapp]. cbv zeta. rewrite Ha, Hc, Hs, Hr.
+  assert (E1 : (a >? now) = false) by (rewrite Z.gtb_ltb; apply Z.ltb_ge; lia).
+  assert (E2 : (a <=? now) = true) by (apply Z.leb_le; lia). rewrite E1, E2. cbn [andb negb].
+  assert (Hn : ts_ack_at (sp_at (upd_sp 2 ts_ack_written f) 2) = None).
+  { unfold sp_at, upd_sp. cbn [f_sp set_sp]. rewrite nth_upd_same by exact Hl. reflexivity. }
+  destruct (ai_empty it); [exact Hn|]. apply wapp_keeps_none. exact Hn.
+Qed.
+
+Lemma ack_sent_all : forall ns l i, ts_ack_at (nth i (sent_all ns l) ts_init) = ts_ack_at (nth i l ts_init).
+Proof.
+  intros ns l; revert ns; induction l as [|s t IH]; intros ns i; [destruct ns; reflexivity|].
+  destruct ns as [|n ns]; [reflexivity|]. cbn [sent_all]. destruct i; cbn [nth]; [|apply IH].
+  unfold ts_sent. destruct (ts_disc s); reflexivity.
+Qed.
+
+Lemma ack_none_discard j g i : ts_ack_at (sp_at g i) = None -> ts_ack_at (sp_at (discard_epoch j g) i) = None.
+Proof.
+  intros H. unfold discard_epoch. destruct (nth_error (f_sp g) j) as [s|] eqn:En; [|exact H]. destruct (ts_disc s); [exact H|].
+  unfold sp_at, upd_sp. cbn [f_sp set_sp set_pto]. destruct (Nat.eq_dec i j) as [->|Hij].
+  - rewrite nth_upd_same; [reflexivity|]. apply nth_error_Some. congruence.
+  - rewrite nth_upd_other by exact Hij. exact H.
+Qed.
+
+(* what the writer chain does to the ACK of space i *)
+Lemma writers_ack now w f i a : (i <= 2)%nat -> (i < length (f_sp f))%nat ->
+  ts_ack_at (sp_at f i) = Some a -> a <= now -> ts_disc (sp_at f i) = false -> ack_can_send i w f ->
+  ts_ack_at (sp_at (writers now w f) i) = None.
+Proof.
+  intros Hi Hl Ha Hle Hd [_ Hc]. unfold writers.
+  destruct i as [|[|[|i]]]; [| | |lia]; cbn [ack_can_send] in Hc.
+  - destruct Hc as [Hcf Hw]. rewrite Hcf.
+    pose proof (whs_writes 0 (sw_h0 w) f a Hl Ha Hd Hw) as H0.
+    destruct (whs 0 (sw_h0 w) f) as [st0 f0]. cbn [snd] in H0. destruct st0; [exact H0|].
+    pose proof (sp_whs_other 0 1 (sw_h1 w) f0 ltac:(lia)) as S1.
+    destruct (whs 1 (sw_h1 w) f0) as [st1 f1]. cbn [snd] in S1. destruct st1; [congruence|].
+    destruct (sw_appkeys w); [rewrite wapp_other by lia|]; congruence.
+  - destruct Hc as (Hcf & Hst & Hw). rewrite Hcf.
+    pose proof (sp_whs_other 1 0 (sw_h0 w) f ltac:(lia)) as S0. pose proof (len_whs 0 (sw_h0 w) f) as L0.
+    destruct (whs 0 (sw_h0 w) f) as [st0 f0]. cbn [fst snd] in *. subst st0.
+    assert (H1 : ts_ack_at (sp_at (snd (whs 1 (sw_h1 w) f0)) 1) = None).
+    { apply (whs_writes 1 (sw_h1 w) f0 a); [lia|congruence|congruence|exact Hw]. }
+    destruct (whs 1 (sw_h1 w) f0) as [st1 f1]. cbn [snd] in H1. destruct st1; [exact H1|].
+    destruct (sw_appkeys w); [rewrite wapp_other by lia|]; exact H1.
+  - destruct Hc as ((Hr & Hk) & Hcp & it & rest & Hits & Hs & Hrm). rewrite Hk, Hits.
+    destruct (f_confirmed f) eqn:Ecf.
+    + now apply (wapp_writes now it rest f a).
+    + destruct Hr as [Hr|[H0 H1]]; [discriminate|].
+      pose proof (sp_whs_other 2 0 (sw_h0 w) f ltac:(lia)) as S0. pose proof (len_whs 0 (sw_h0 w) f) as L0.
+      pose proof (complete_whs 0 (sw_h0 w) f) as C0.
+      destruct (whs 0 (sw_h0 w) f) as [st0 f0]. cbn [fst snd] in *. subst st0.
+      pose proof (sp_whs_other 2 1 (sw_h1 w) f0 ltac:(lia)) as S1. pose proof (len_whs 1 (sw_h1 w) f0) as L1.
+      pose proof (complete_whs 1 (sw_h1 w) f0) as C1.
+      destruct (whs 1 (sw_h1 w) f0) as [st1 f1]. cbn [fst snd] in *. subst st1.
+      apply (wapp_writes now it rest f1 a); try congruence; try lia.
+Qed.
+
+Lemma len_removed_all : forall ns l, length (removed_all ns l) = length l.
+Proof. intros ns l; revert ns; induction l; intros ns; destruct ns; cbn; auto. Qed.
+
+Lemma keeps_detect n lt s : ts_ack_at (ts_detect n lt s) = ts_ack_at s /\ ts_disc (ts_detect n lt s) = ts_disc s.
+Proof. unfold ts_detect. destruct (ts_disc s) eqn:E; cbn; auto. Qed.
+Lemma keeps_removed n s : ts_ack_at (ts_removed n s) = ts_ack_at s /\ ts_disc (ts_removed n s) = ts_disc s.
+Proof. unfold ts_removed. destruct (ts_disc s) eqn:E; cbn; auto. Qed.
+
+Lemma keeps_upd_detect n lt : forall l j i,
+  ts_ack_at (nth i (upd j (ts_detect n lt) l) ts_init) = ts_ack_at (nth i l ts_init) /\
+  ts_disc (nth i (upd j (ts_detect n lt) l) ts_init) = ts_disc (nth i l ts_init).
+Proof.
+  intros l j i. destruct (Nat.eq_dec i j) as [->|Hij]; [|rewrite nth_upd_other by exact Hij; auto].
+  destruct (Nat.lt_ge_cases j (length l)) as [Hl|Hl].
+  - rewrite nth_upd_same by exact Hl. apply keeps_detect.
+  - rewrite !nth_overflow; auto. rewrite len_upd. exact Hl.
+Qed.
+
+Lemma keeps_removed_all : forall ns l i,
+  ts_ack_at (nth i (removed_all ns l) ts_init) = ts_ack_at (nth i l ts_init) /\
+  ts_disc (nth i (removed_all ns l) ts_init) = ts_disc (nth i l ts_init).
+Proof.
+  intros ns l; revert ns; induction l as [|s t IH]; intros ns i; [destruct ns; auto|].
+  destruct ns as [|n ns]; [auto|]. cbn [removed_all]. destruct i; cbn [nth]; [apply keeps_removed|apply IH].
+Qed.
+
+Lemma on_loss_keeps te f i :
+  ts_ack_at (sp_at (on_loss_detection_timeout te f) i) = ts_ack_at (sp_at f i) /\
+  ts_disc (sp_at (on_loss_detection_timeout te f) i) = ts_disc (sp_at f i) /\
+  length (f_sp (on_loss_detection_timeout te f)) = length (f_sp f).
+Proof.
+  unfold on_loss_detection_timeout. destruct (lspace (f_sp f)) as [[j lt]|].
+  - unfold sp_at, upd_sp. cbn [f_sp set_sp]. destruct (keeps_upd_detect (hd 0 (te_ae te)) (te_lt te) (f_sp f) j i). rewrite len_upd. auto.
+  - unfold sp_at, reschedule_data. cbn [f_sp set_sp send_probe set_pto]. destruct (keeps_removed_all (te_ae te) (f_sp f) i). rewrite len_removed_all. auto.
+Qed.
+
+
+Lemma timer_progress_ack_lemma reset ptod pto3 te w f d v i :
+  oks f -> c_close_at (f_c f) = Some d -> is_end (c_state (f_c f)) = false ->
+  timer_src ptod d f = (v, SrcAck i) -> (i <= 2)%nat ->
+  ack_can_send i w (send_state reset (fire1 reset ptod v te f)) ->
+  ts_ack_at (sp_at (fire2 reset ptod v pto3 te w f) i) = None.
+Proof.
+  intros Hok Hd He Hs Hi Hcan.
+  destruct (timer_src_lt _ _ _ _ _ Hs) as [[? _]|[_ Hv]]; [discriminate|].
+  destruct (timer_src_sound _ _ _ _ _ Hok Hs) as [(sp & Hn & Ha & Hdi & _) _].
+  assert (Hlen : (i < length (f_sp f))%nat) by (apply nth_error_Some; congruence).
+  assert (Hsp : sp_at f i = sp) by (unfold sp_at; now apply nth_error_nth).
+  unfold fire2. set (f1 := fire1 reset ptod v te f) in *.
+  assert (H1 : ts_ack_at (sp_at f1 i) = Some v /\ ts_disc (sp_at f1 i) = false /\ length (f_sp f1) = length (f_sp f)).
+  { subst f1. rewrite (fire1_not_due reset ptod v te f d Hd He Hv). cbv zeta.
+    assert (H0 : forall g, f_sp g = f_sp f -> ts_ack_at (sp_at g i) = Some v /\ ts_disc (sp_at g i) = false /\ length (f_sp g) = length (f_sp f)).
+    { intros g Hg. unfold sp_at. rewrite Hg. fold (sp_at f i). rewrite Hsp. auto. }
+    destruct (loss_time_of f ptod) as [la|]; [destruct (v >=? la)|]; try (apply H0; reflexivity).
+    destruct (on_loss_keeps te (set_c (set_loss_at (Some la) (f_c f)) f) i) as (K1 & K2 & K3).
+    rewrite K1, K2, K3. apply H0. reflexivity. }
+  destruct H1 as (A1 & D1 & L1).
+  destruct Hcan as [Hord Hcan].
+  assert (Hord1 : ordinary_send (f_c f1) = true) by (destruct reset; exact Hord).
+  cbn [fstep]. unfold fsend.
+  assert (Hsend : exists s c', send v pto3 (sw_produced w) (sw_nev w) (f_c f1) = Ok (s, c')).
+  { unfold send. unfold ordinary_send in Hord1. apply andb_prop in Hord1. destruct Hord1 as [H12 H3]. apply andb_prop in H12. destruct H12 as [H1' H2'].
+    rewrite H1'. cbn [negb]. destruct (is_end (c_state (f_c f1))); [discriminate|]. destruct (c_close_pending (f_c f1)); [discriminate|]. eauto. }
+  destruct Hsend as (s & c' & Es). rewrite Es, Hord1. cbn [snd].
+  assert (Hw : ts_ack_at (sp_at (writers v w (send_state reset f1)) i) = None).
+  { apply (writers_ack v w (send_state reset f1) i v); auto; try lia.
+    - destruct reset; cbn; lia.
+    - destruct reset; exact A1.
+    - destruct reset; exact D1.
+    - split; assumption. }
+  change (if reset then set_pacing None f1 else f1) with (send_state reset f1).
+  set (fw := writers v w (send_state reset f1)) in *.
+  assert (H2 : ts_ack_at (sp_at (if sw_probe_clr w then set_probe false fw else fw) i) = None) by (destruct (sw_probe_clr w); exact Hw).
+  set (f2 := if sw_probe_clr w then set_probe false fw else fw) in *.
+  destruct (sw_produced w); [|exact H2].
+  assert (H3 : ts_ack_at (sp_at (set_sp (sent_all (sw_ae w) (f_sp f2)) f2) i) = None).
+  { unfold sp_at. cbn [f_sp set_sp]. rewrite ack_sent_all. exact H2. }
+  destruct (sw_sent_hs w && c_client (f_c f1)); [|exact H3].
+  unfold sp_at. cbn [f_sp set_c]. apply (ack_none_discard 0 _ i). exact H3.
+Qed.
+
 (* ================= 6. statements over reachable states ================= *)
-Lemma timer_progress_partial_lemma : forall reset client o ops ptod pto3 te w d v s, ffirst_op client o ->
+Lemma timer_progress_lemma : forall reset client o ops ptod pto3 te w d v s, ffirst_op client o ->
   let f := snd (frun reset (full_init client) (o :: ops)) in
   c_close_at (f_c f) = Some d -> is_end (c_state (f_c f)) = false -> timer_src ptod d f = (v, s) ->
   progress_of reset ptod pto3 te w f v s.
@@ -836,7 +1024,7 @@ Proof.
   pose proof (freach_sinv reset client o ops) as Hsi. fold f in Hsi. destruct Hsi as [Hok Hp].
   destruct s as [|i|i| |]; cbn [progress_of].
   - destruct (timer_src_lt _ _ _ _ _ Hs) as [[_ ->]|[Hn _]]; [|congruence]. now apply timer_progress_close.
-  - exact I.
+  - intros Hi2 Hcan. now apply (timer_progress_ack_lemma reset ptod pto3 te w f d v i).
   - destruct (timer_progress_loss reset ptod te f d v i Hd He Hs Hok) as (_ & A & B). split; assumption.
   - now apply (timer_progress_pto reset ptod te f d v).
   - intros Hsane Hwhy. apply (timer_progress_pacing_lemma reset ptod pto3 te w f d v); auto. split; assumption.
